@@ -39,7 +39,7 @@ UPD = {
  "C14-6": ({"C14": 0, "C13": 1}, "the operator cache is process-global state, which C14 resets before every operation by design (C14 judges what is kept on the template objects); caught by C13"),
  "C03-5": ({"C03": 0, "C10": 1}, "C03's models have no delays; delayed models under the fixed-step solvers are C10's run arm, which catches it (two distinct lags)"),
  "C12-6": ({"C12": 1}, "missed at first; C12 draws the names sympy uses for cse temporaries (x0, x1, ...) for parameters and states"),
- "C01-6": ({"C01": 0, "C04": 1}, "a scalar source fanning out to >= 10 merged targets through the indexed edge path: generated by C04's cross_type arm, which catches it; C01's vectorized arm stays below 10 targets of one source"),
+ 
  "C04-5": ({"C04": 1, "C09": 1, "C10": 1}, "missed at first; C04's traj arm now delays subsets of the edges"),
  "C05-5": ({"C05": 0, "C01": 1}, "needs two operators with the same variable name next to a user variable named like the generated label: C05's arms compile single operators; caught by C01 (collision names)"),
  "C05-6": ({"C05": 1}, "missed at first; C05 has the special_names arm (a name with another meaning is refused or means the declared variable). The patch was re-based by hand after the repair F-05k touched the same list"),
